@@ -112,12 +112,14 @@ def stream_attack(kind):
 
 
 def compare_views(a, b, ignore_dst):
+    if not isinstance(ignore_dst, (set, frozenset)):
+        ignore_dst = {ignore_dst}
     for k in ("got", "srv_got", "connect_errors"):
         if a[k] != b[k]:
             return k, repr(a[k])[:300], repr(b[k])[:300]
     for src in sorted(set(a["tx"]) | set(b["tx"])):
-        xa = [x for x in a["tx"].get(src, []) if x[1] != ignore_dst]
-        xb = [x for x in b["tx"].get(src, []) if x[1] != ignore_dst]
+        xa = [x for x in a["tx"].get(src, []) if x[1] not in ignore_dst]
+        xb = [x for x in b["tx"].get(src, []) if x[1] not in ignore_dst]
         for i, (x, y) in enumerate(zip(xa, xb)):
             if x[1:] != y[1:] or abs(x[0] - y[0]) > 65536:
                 return "tx[%s:%d][%d]" % (src[0], src[1], i), repr((x[0], x[1], x[2].hex()[:50])), repr((y[0], y[1], y[2].hex()[:50]))
@@ -135,6 +137,8 @@ def work(args):
             att = ms.run(spec, seed, datagram_attack(atk[1]))
         elif atk[0] == "stream":
             att = ms.run(spec, seed, stream_attack(atk[1]))
+        elif atk[0] == "flood":
+            att = ms.run(spec, seed, None, flood=atk[1])
         else:
             att = ms.run(spec, seed, None)
         bad = []
@@ -149,7 +153,9 @@ def work(args):
             got = ref.got.get(i, [])
             if len(got) != spec.rounds or any(not g.startswith(w) for g, w in zip(got, want)):
                 bad.append(("reference", "reference run: client %d did not get its own echoes: %r" % (i, [g[:30] for g in got])))
-        diff = compare_views(ms.victim_view(ref), ms.victim_view(att), ms.ATTACKER)
+        diff = compare_views(ms.victim_view(ref), ms.victim_view(att), {ms.ATTACKER, att.flood_addr})
+        if atk[0] == "flood" and att.flood_sent < atk[1]["n"]:
+            bad.append(("flood-setup", "the flooding peer could send only %d of %d messages (%s)" % (att.flood_sent, atk[1]["n"], getattr(att, "flood_error", None))))
         if diff:
             bad.append(("interference", "hostile traffic changed what the victims do or see: %s differs (reference %s / attacked %s)" % diff))
         # delivered only on the connection and port addressed
@@ -167,7 +173,7 @@ def work(args):
         # traffic for unknown ports / peers creates no state
         for t, tab in att.tables:
             for vp, size in tab.items():
-                allowed = sum(1 for c in spec.clients if c["vport"] == vp)
+                allowed = sum(1 for c in spec.clients if c["vport"] == vp) + (1 if atk[0] == "flood" and atk[1]["vport"] == vp else 0)   # the flooding peer is a valid connection
                 if size > allowed:
                     bad.append(("state-created", "at t=%.3f the server holds %d connections on vport %d, only %d genuine clients exist" % (t, size, vp, allowed)))
                     break
@@ -207,7 +213,7 @@ def run(ctx):
                 "tails, splices, insertions, bit flips, length-field lies, unknown options, zero-length datagrams next to every genuine "
                 "datagram with the given intensity (to the server from its own address, with a victim's address but another port, to the "
                 "clients, and spoofed as the server), or opens a hostile stream connection (partial header, bad magic, garbage, huge "
-                "announced length); oracle: non-interference, delivery only on the addressed connection/port, no server state for "
+                "announced length), or is a perfectly valid further peer whose handler is busy and who sends 150..300 messages nobody reads; oracle: non-interference, delivery only on the addressed connection/port, no server state for "
                 "unknown peers, bounded decode work; the server transport of every datagram run is replayed through the Lean L1 model; "
                 "distinct non-trivial = injected hostile datagrams")
     jobs = []
@@ -227,6 +233,12 @@ def run(ctx):
     for kind in ("partial-header", "bad-magic", "garbage-stream", "huge-announce"):
         for r in range(1 if quick else 4):
             jobs.append((n, st_spec, ctx.rng.getrandbits(32), ("stream", kind))); n += 1
+    # a hostile peer needs no malformed traffic: a valid connection whose handler is busy, flooded with messages nobody reads
+    for sp in (dg_specs[:2] + [st_spec]) if quick else (dg_specs + [st_spec]):
+        for r in range(1 if quick else 3):
+            vp = sp["vports"][-1]
+            ver = 0 if sp.get("server_version") == 0 else 1
+            jobs.append((n, sp, ctx.rng.getrandbits(32), ("flood", dict(vport=vp, version=ver, n=ctx.rng.choice([150, 300]), size=ctx.rng.choice([1, 20]), start=ctx.rng.choice([0.05, 0.3, 0.9]))))); n += 1
     drv = ctx.driver("C02")
     ndiff, first = 0, None
     with multiprocessing.Pool(min(16, os.cpu_count() or 4)) as pool:
@@ -235,7 +247,7 @@ def run(ctx):
                 ctx.corr_break("c07-session-harness", "session crashed in the harness", {"traceback": err, "spec": specd, "attack": atk})
                 continue
             for key, what in bad:
-                ctx.violation("c07:%s:%s" % (key, specd.get("transport", "udp") + (":" + atk[1] if atk[0] == "stream" else "")), what,
+                ctx.violation("c07:%s:%s" % (key, specd.get("transport", "udp") + (":" + atk[1] if atk[0] == "stream" else "") + (":flood" if atk[0] == "flood" else "")), what,
                               {"spec": specd, "attack": atk, "seed": seed, "how": "harness/corr_C07.py work((0, spec, seed, attack))"})
             r = l1_server_compare(drv, att) if att is not None else {"ok": True, "diffs": [], "skipped": True}
             if not r["ok"]:
@@ -246,7 +258,11 @@ def run(ctx):
             ctx.evaluations += stats.get("inj", 0)
             for i in range(stats.get("inj", 0)):
                 ctx.distinct.add((idx, i))
-            ctx.tag("%s:%s" % (specd.get("transport", "udp"), atk[1]), stats.get("inj", 0))
+            ctx.tag("%s:%s" % (specd.get("transport", "udp"), atk[1] if atk[0] != "flood" else "flood"), stats.get("inj", 0) if atk[0] != "flood" else getattr(att, "flood_sent", 0))
+            if atk[0] == "flood":
+                ctx.evaluations += getattr(att, "flood_sent", 0)
+                for i in range(getattr(att, "flood_sent", 0)):
+                    ctx.distinct.add((idx, "flood", i))
             ctx.tag("reads-rejected-by-the-barrier", stats.get("rejected", 0))
             if len(ctx.samples) < 4:
                 ctx.samples.append({"spec": specd, "attack": atk, "injected": stats.get("inj"), "reads": stats.get("decodes"),
